@@ -8,7 +8,7 @@ const (
 func init() { props["C08"] = c08 }
 
 func nilErrOf(call string) Cond {
-	return Cond{Op: "EQL", A: []string{"call:" + call}, B: []string{"const:nil"}, Want: true, Desc: call + " == nil"}
+	return Cond{Op: "EQL", A: []string{"^~call:" + call}, B: []string{"const:nil"}, Want: true, Desc: call + " == nil"}
 }
 
 func c08(r *Report) propMeta {
